@@ -31,6 +31,14 @@ static std::vector<RCP<const Basic>> composite_pool(const std::string &obl)
         for (auto &v : as) objs.push_back(function_symbol("f", v));
     }
     else if (obl.find(".MIntPoly.") != std::string::npos) { for (auto &m : mpoly_pool()) objs.push_back(m); }
+    else if (obl.find(".MultiArgFunction.") != std::string::npos) {
+        std::vector<vec_basic> as = {{x}, {y}, {x, y}, {y, x}, {x, y, z}, {x, x, x}, {big, x}, {integer(5), x}, {real_double(0.0), x}, {real_double(-0.0), x}};
+        for (auto &v : as) { objs.push_back(function_symbol("f", v)); objs.push_back(function_symbol("g", v)); }
+    }
+    else if (obl.find(".FiniteSet.") != std::string::npos) {
+        std::vector<set_basic> ss = {{x}, {y}, {x, y}, {x, y, z}, {integer(5), x}, {big, x}, {integer(5), big}, {real_double(0.0), x}, {real_double(-0.0), x}, {integer(5), big, x}};
+        for (auto &v : ss) { RCP<const Basic> f = finiteset(v); if (is_a<FiniteSet>(*f)) objs.push_back(f); }
+    }
     else if (obl.find(".Mul.") != std::string::npos) {
         std::vector<RCP<const Basic>> cf = {integer(2), integer(3), big, real_double(2.0), rational(1, 2)};
         std::vector<RCP<const Basic>> fs = {x, y, pow(x, integer(2)), pow(y, x), pow(x, big), pow(x, integer(5))};
@@ -103,6 +111,6 @@ static int mpoly_search(const std::string &obl)
 }
 static bool is_composite_obligation(const std::string &obl)
 {
-    for (const char *k : {".Pow.", ".Interval.", ".TwoArgBasic.", ".OneArgFunction.", ".Add.", ".ordered_compare.", ".Complement.", ".Contains.", ".MIntPoly.cmp.", ".Mul."}) if (obl.find(k) != std::string::npos) return true;
+    for (const char *k : {".Pow.", ".Interval.", ".TwoArgBasic.", ".OneArgFunction.", ".Add.", ".ordered_compare.", ".Complement.", ".Contains.", ".MIntPoly.cmp.", ".Mul.", ".MultiArgFunction.", ".FiniteSet."}) if (obl.find(k) != std::string::npos) return true;
     return false;
 }
